@@ -286,6 +286,7 @@ fn run_split_e2e(c: &SplitCase) -> Outcome {
     cardinals: 1,
     no_rune_index: false,
     no_inscription_index: false,
+    sweepable_foreign: false,
   };
   let w = World::new(spec);
   for k in 0..n_runes {
@@ -705,6 +706,7 @@ fn run_send(c: &SendCase) -> Outcome {
     cardinals: 1,
     no_rune_index: false,
     no_inscription_index: false,
+    sweepable_foreign: false,
   };
   let w = World::new(spec);
   for k in 0..c.n_runes {
